@@ -510,7 +510,8 @@ def problem_tokens(cfg, L1, L2, gmrfP=None):
     if P["type"] == "gauss":
         toks += ["gauss", qm(L2), str(len(P["mean"])), qv(P["mean"]), spec_token(P["spec"])]
     elif P["type"] == "gmrf":
-        toks += ["gmrf", qm(L2), qv(P["mean"]), qm(gmrfP)]
+        # the model computes prec·DᵀD itself from C20's transcription of the finite-difference operators (no leaf precision)
+        toks += ["gmrfop", qm(L2), qv(P["mean"]), str(int(P["order"])), P["bc"], q(float(P["prec"]))]
     else:
         toks += ["joint", str(len(P["blocks"]))]
         for rows, R, mu in P["blocks"]:
@@ -652,6 +653,8 @@ def run(ctx):
     run_factor(ctx, cuqi, np.random.RandomState(ctx.seed + 6061), thorough)
     from harness.props.c06_loop import run_loop
     run_loop(ctx, cuqi, np.random.RandomState(ctx.seed + 6063), thorough)
+    from harness.props.c06_gmrf import run_gmrf
+    run_gmrf(ctx, cuqi, np.random.RandomState(ctx.seed + 6065), thorough)
     from harness.props.c06_uglaw import run_uglaw
     run_uglaw(ctx, cuqi, np.random.RandomState(ctx.seed + 6064), thorough)
 
